@@ -147,8 +147,8 @@ def m_from_utf8(I, fr, callee, m, args):
         # content of the lossy rendering is not inspected by the checked code
         return En('Cow', 'Owned', (VecV([mk('u8', 0xEF), mk('u8', 0xBF), mk('u8', 0xBD)], True),))
     if isinstance(src, VecV):
-        return Err(Agg('FromUtf8Error', (src,)))
-    return Err(Agg('Utf8Error', ()))
+        return Err(Agg('FromUtf8Error', (src, Agg('Utf8Error', (VecV(xs),)))))
+    return Err(Agg('Utf8Error', (VecV(xs),)))
 
 
 def utf8_valid(xs):
@@ -1121,3 +1121,59 @@ def m_hash_coll_eq(I, fr, callee, m, args):
             conj.append(z3.Or([z3.BoolVal(False)] + alts))
         e = z3.And([z3.BoolVal(True)] + conj)
     return sc_from(e if m.group(2) == 'eq' else z3.Not(e), 'bool')
+
+
+
+def utf8_scan(I, xs):
+    """std's run_utf8_validation on an INVALID byte list: -> (valid_up_to int, error_len int|None); forks per character"""
+    n = len(xs)
+    i = 0
+    ctx = I.ctx
+
+    def rng(b, lo, hi):
+        return z3.And(z3.UGE(b, lo), z3.ULE(b, hi))
+    while i < n:
+        b0 = xs[i].z()
+        w = 1 + ctx.decide([z3.ULE(b0, 0x7F), rng(b0, 0xC2, 0xDF), rng(b0, 0xE0, 0xEF), rng(b0, 0xF0, 0xF4),
+                            z3.Or(rng(b0, 0x80, 0xC1), z3.UGE(b0, 0xF5))])
+        if w == 1:
+            i += 1
+            continue
+        if w == 5:
+            return i, 1
+        if i + 1 >= n:
+            return i, None
+        b1 = xs[i + 1].z()
+        if w == 2:
+            ok1 = rng(b1, 0x80, 0xBF)
+        elif w == 3:
+            ok1 = z3.Or(z3.And(b0 == 0xE0, rng(b1, 0xA0, 0xBF)), z3.And(rng(b0, 0xE1, 0xEC), rng(b1, 0x80, 0xBF)),
+                        z3.And(b0 == 0xED, rng(b1, 0x80, 0x9F)), z3.And(rng(b0, 0xEE, 0xEF), rng(b1, 0x80, 0xBF)))
+        else:
+            ok1 = z3.Or(z3.And(b0 == 0xF0, rng(b1, 0x90, 0xBF)), z3.And(rng(b0, 0xF1, 0xF3), rng(b1, 0x80, 0xBF)),
+                        z3.And(b0 == 0xF4, rng(b1, 0x80, 0x8F)))
+        if not ctx.branch(ok1):
+            return i, 1
+        for k in range(2, w):
+            if i + k >= n:
+                return i, None
+            if not ctx.branch(rng(xs[i + k].z(), 0x80, 0xBF)):
+                return i, k
+        i += w
+    raise PathEnd('infeasible', 'utf8_scan on valid input')
+
+
+@model(r'^(?:std::str::|core::str::)?Utf8Error::(valid_up_to|error_len)$|^(?:std::string::)?FromUtf8Error::(utf8_error|into_bytes|as_bytes)$')
+def m_utf8_error(I, fr, callee, m, args):
+    op = m.group(1) or m.group(2)
+    e = deref_val(I, args[0])
+    if op in ('valid_up_to', 'error_len'):
+        up, el = utf8_scan(I, list(e.f[0].items))
+        if op == 'valid_up_to':
+            return usize(up)
+        return NONE if el is None else Some(mk('u8', el) if False else usize(el))
+    if op == 'utf8_error':
+        return e.f[1]
+    if op == 'into_bytes':
+        return VecV(e.f[0].items, False)
+    return SliceRef(I.new_ref(VecV(e.f[0].items), 'fu8'), usize(0), usize(len(e.f[0].items)))
